@@ -68,6 +68,15 @@ func workScenario(mods []modsim.Module, kind, pkind, mode string, position int, 
 		if kind == "task" || kind == "schedtask" {
 			sc.Steps = append(sc.Steps, modsim.Step{Op: "requeue", Mods: names}, modsim.Step{Op: "waitfinish"}, modsim.Step{Op: "waitcounts"})
 		}
+		if kind == "hook" {
+			// the event is triggered again after the hook panicked: the hook runs again like any other, nothing of the
+			// first run is in its way
+			src := pw.On
+			if src == "" {
+				src = target.Name
+			}
+			sc.Steps = append(sc.Steps, modsim.Step{Op: "trigger", Mods: []string{src}}, modsim.Step{Op: "sleep", US: 3000}, modsim.Step{Op: "waitfinish"}, modsim.Step{Op: "waitcounts"})
+		}
 	}
 	sc.Steps = append(sc.Steps, modsim.Step{Op: "shutdown"})
 	return sc
